@@ -52,7 +52,9 @@ theorem wp_finite : wp.FiniteFloats := by
 def file (name : String) (lines : List Nat) : WalFile Nat :=
   { name := name.toList, lines := lines, readable := true, deletable := true }
 
-def noFault : Nat → Bool := fun _ => false
+def noFault : Nat → Fault := fun _ => Fault.none
+/-- the data write of log 1's archive fails (disk full, quota, …) -/
+def writeFault1 : Nat → Fault := fun id => if id = 1 then Fault.write else Fault.none
 def emptyDir : ArchFs := { root := .missing, nodes := [] }
 
 /-- three logs: one with a blank, a garbage and a torn last line; an empty one; one above the bound -/
@@ -65,7 +67,7 @@ def wal3 : List (WalFile Nat) :=
 `failsFor` is the complete list of reasons for `archive_log(id)` to return `Err`, evaluated on
 the directories *before* the call (no canonical file, unreadable file, archive root not
 creatable, fault oracle, archive name squatted). -/
-theorem C19_failure_blocks_deletion (p : Parser L) (fails : Nat → Bool) (shard bound : Nat)
+theorem C19_failure_blocks_deletion (p : Parser L) (fails : Nat → Fault) (shard bound : Nat)
     (wal : List (WalFile L)) (fs : ArchFs) (f : WalFile L) (id : Nat) (hf : f ∈ wal)
     (he : eligible bound f.name = some id) (hfail : failsFor p fails shard wal fs id = true) :
     (cleanup true p fails shard bound wal fs).1 = wal := by
@@ -78,17 +80,63 @@ theorem C19_failure_blocks_deletion (p : Parser L) (fails : Nat → Bool) (shard
 example : failsFor wp noFault 0 wal3 { root := .isFile, nodes := [] } 0 = true
     ∧ (cleanup true wp noFault 0 2 wal3 { root := .isFile, nodes := [] }).1 = wal3 := by decide
 
+/-- **For every vector of write outcomes: a log is deleted only if every archive of the batch
+was written completely.** If conservative cleanup deletes anything, then for every eligible
+entry the canonical file existed and was readable, the archive root was creatable, the fault
+oracle reported neither a `File::create` fault nor a data-write fault (`Fault.write`: the write
+failed, possibly after part of the bytes), and the archive's name was not squatted. -/
+theorem C19_delete_implies_all_writes_ok (p : Parser L) (fails : Nat → Fault) (shard bound : Nat)
+    (wal : List (WalFile L)) (fs : ArchFs) (f : WalFile L) (hf : f ∈ wal)
+    (hdel : f ∉ (cleanup true p fails shard bound wal fs).1)
+    (g : WalFile L) (hg : g ∈ wal) (id : Nat) (he : eligible bound g.name = some id) :
+    fails id = Fault.none ∧ rootBad fs.root = false ∧
+      ∃ c, findFile wal (walName id) = some c ∧ c.readable = true ∧
+        squatted fs.nodes (mkArchive p shard id c.lines).fileName = false := by
+  have hff : failsFor p fails shard wal fs id = false := by
+    cases h : failsFor p fails shard wal fs id
+    · rfl
+    · rw [C19_failure_blocks_deletion p fails shard bound wal fs g id hg he h] at hdel
+      exact absurd hf hdel
+  unfold failsFor at hff
+  cases hc : findFile wal (walName id) with
+  | none => rw [hc] at hff; cases hff
+  | some c =>
+    rw [hc] at hff
+    simp only [Bool.or_eq_false_iff, Bool.not_eq_false'] at hff
+    exact ⟨bites_false hff.2.1.2, hff.2.1.1, c, rfl, hff.1, hff.2.2⟩
+
+/-- A data-write fault on one archive of the batch: that `archive_log` returns `Err`, an
+undecodable file stays behind under the archive's name (an earlier archive of that name is
+gone), the other log of the batch is archived, and no log is deleted. -/
+example : (archivePass wp writeFault1 0 2 wal3 wal3 emptyDir).1 = [true, false]
+    ∧ (cleanup true wp writeFault1 0 2 wal3 emptyDir).1 = wal3
+    ∧ lookup "wal-00001-0-0.wal.zst".toList (cleanup true wp writeFault1 0 2 wal3 emptyDir).2.nodes = some Node.junk
+    ∧ recoverAll (cleanup true wp writeFault1 0 2 wal3 emptyDir).2 = some (parsedEntries wp [4, 0, 7, 2, 9]) := by
+  decide
+
+/-- What a failed data write leaves behind: `Err`, and — when the file could be created — an
+undecodable file under the archive's name, whatever was there before. -/
+theorem C19_write_fault_leaves_undecodable (fails : Nat → Fault) (fs : ArchFs) (a : Archive)
+    (hw : fails a.header.logId = Fault.write) :
+    (writeToFile fails fs a).1 = false ∧
+      (rootBad fs.root = false → squatted fs.nodes a.fileName = false →
+        lookup a.fileName (writeToFile fails fs a).2.nodes = some Node.junk ∧ readNode Node.junk = none) := by
+  refine ⟨(writeToFile_err (by simp [hw, Fault.bites])).1, fun hr hs => ⟨?_, rfl⟩⟩
+  obtain ⟨root, nodes⟩ := fs
+  unfold writeToFile
+  cases root <;> simp_all [rootBad, lookup_put_same]
+
 /-- The archive pass reports exactly one result per eligible directory entry, and each is
 `Err` iff `failsFor` holds on the initial state — the outcome for one log does not depend on
 what the pass did to the archive directory before reaching it, nor on `read_dir` order. -/
-theorem C19_archive_results (p : Parser L) (fails : Nat → Bool) (shard bound : Nat)
+theorem C19_archive_results (p : Parser L) (fails : Nat → Fault) (shard bound : Nat)
     (wal : List (WalFile L)) (fs : ArchFs) :
     (archivePass p fails shard bound wal wal fs).1
       = (wal.filterMap fun f => eligible bound f.name).map fun id => !failsFor p fails shard wal fs id :=
   archivePass_fst p fails shard bound wal wal fs
 
 /-- Without any failure the deletion pass runs: exactly the eligible, removable entries go. -/
-theorem C19_no_failure_deletes (conservative : Bool) (p : Parser L) (fails : Nat → Bool) (shard bound : Nat)
+theorem C19_no_failure_deletes (conservative : Bool) (p : Parser L) (fails : Nat → Fault) (shard bound : Nat)
     (wal : List (WalFile L)) (fs : ArchFs)
     (h : ∀ f ∈ wal, ∀ id, eligible bound f.name = some id → failsFor p fails shard wal fs id = false) :
     (cleanup conservative p fails shard bound wal fs).1 = deletePass bound wal := by
@@ -103,7 +151,7 @@ theorem C19_no_failure_deletes (conservative : Bool) (p : Parser L) (fails : Nat
 
 /-- **No log at or above the bound, and no file the cleaner does not recognise, is ever
 deleted** — in both modes, under every fault pattern. -/
-theorem C19_no_delete_above_bound (conservative : Bool) (p : Parser L) (fails : Nat → Bool)
+theorem C19_no_delete_above_bound (conservative : Bool) (p : Parser L) (fails : Nat → Fault)
     (shard bound : Nat) (wal : List (WalFile L)) (fs : ArchFs) (f : WalFile L) (hf : f ∈ wal)
     (h : eligible bound f.name = none) :
     f ∈ (cleanup conservative p fails shard bound wal fs).1 := by
@@ -128,7 +176,7 @@ theorem C19_eligible_below_bound (bound : Nat) (name : Name) (id : Nat) (h : eli
   · cases h
 
 /-- What remains is the old directory minus some entries, in the same order, contents untouched. -/
-theorem C19_remaining_sublist (conservative : Bool) (p : Parser L) (fails : Nat → Bool)
+theorem C19_remaining_sublist (conservative : Bool) (p : Parser L) (fails : Nat → Fault)
     (shard bound : Nat) (wal : List (WalFile L)) (fs : ArchFs) :
     (cleanup conservative p fails shard bound wal fs).1.Sublist wal := by
   unfold cleanup
@@ -144,7 +192,7 @@ example : eligible 2 "wal-00002.log".toList = none ∧ eligible 2 "wal-1.log.bak
   decide
 
 /-- Non-conservative mode never touches the archive directory. -/
-theorem C19_plain_mode_no_archive (p : Parser L) (fails : Nat → Bool) (shard bound : Nat)
+theorem C19_plain_mode_no_archive (p : Parser L) (fails : Nat → Fault) (shard bound : Nat)
     (wal : List (WalFile L)) (fs : ArchFs) :
     cleanup false p fails shard bound wal fs = (deletePass bound wal, fs) := by
   simp [cleanup]
@@ -156,7 +204,7 @@ entries carry the name the WAL writer gives them (`wal-{:05}.log`) — PARTIAL: 
 needed, see `C19_delete_implies_archived_fails`. For every deleted log the archive directory
 afterwards exists and holds, under the log's archive name, an archive whose body is exactly the
 log's parseable entries in file order and whose header carries its id. -/
-theorem C19_delete_implies_archived_partial (p : Parser L) (fails : Nat → Bool) (shard bound : Nat)
+theorem C19_delete_implies_archived_partial (p : Parser L) (fails : Nat → Fault) (shard bound : Nat)
     (wal : List (WalFile L)) (fs : ArchFs) (hnd : (wal.map (·.name)).Nodup)
     (hcanon : ∀ f ∈ wal, ∀ id, eligible bound f.name = some id → f.name = walName id)
     (f : WalFile L) (hf : f ∈ wal) (hdel : f ∉ (cleanup true p fails shard bound wal fs).1) :
@@ -209,7 +257,7 @@ theorem C19_delete_implies_archived_fails :
     decide
 
 /-- helper: a deleted log's entries are `Held` by the archive directory after the cleanup -/
-theorem deleted_held (p : Parser L) (hp : p.FiniteFloats) (fails : Nat → Bool)
+theorem deleted_held (p : Parser L) (hp : p.FiniteFloats) (fails : Nat → Fault)
     (shard bound : Nat) (wal : List (WalFile L)) (fs : ArchFs) (hnd : (wal.map (·.name)).Nodup)
     (hcanon : ∀ f ∈ wal, ∀ id, eligible bound f.name = some id → f.name = walName id)
     (f : WalFile L) (hf : f ∈ wal) (hdel : f ∉ (cleanup true p fails shard bound wal fs).1) :
@@ -241,7 +289,7 @@ theorem deleted_held (p : Parser L) (hp : p.FiniteFloats) (fails : Nat → Bool)
 numbers): after `cleanup_up_to`, the parseable entries of every deleted log are returned by
 `recover_all`, contiguous and in file order, field-wise equal — PARTIAL in the same hypothesis
 as `C19_delete_implies_archived_partial`. -/
-theorem C19_deleted_entries_recoverable_partial (p : Parser L) (hp : p.FiniteFloats) (fails : Nat → Bool)
+theorem C19_deleted_entries_recoverable_partial (p : Parser L) (hp : p.FiniteFloats) (fails : Nat → Fault)
     (shard bound : Nat) (wal : List (WalFile L)) (fs : ArchFs) (hnd : (wal.map (·.name)).Nodup)
     (hcanon : ∀ f ∈ wal, ∀ id, eligible bound f.name = some id → f.name = walName id)
     (f : WalFile L) (hf : f ∈ wal) (hdel : f ∉ (cleanup true p fails shard bound wal fs).1) :
@@ -256,7 +304,7 @@ the parseable entries of a log deleted at *any* step are still returned by `reco
 end, contiguous, in file order, field-wise equal — whatever faults strike in between.
 PARTIAL: the third clause of `StepOk` is needed (`C19_reuse_loses_entries_fails`), as is the
 second (`C19_delete_implies_archived_fails`). -/
-theorem C19_history_recoverable_partial (p : Parser L) (hp : p.FiniteFloats) (fails : Nat → Bool) (shard : Nat)
+theorem C19_history_recoverable_partial (p : Parser L) (hp : p.FiniteFloats) (fails : Nat → Fault) (shard : Nat)
     (st₀ : List (WalFile L) × ArchFs) (before : List (Step L)) (s : Step L) (after : List (Step L))
     (hok : HistoryOk p fails shard st₀ (before ++ s :: after)) (f : WalFile L)
     (hf : f ∈ addFiles (runSteps true p fails shard st₀ before).1 s.add)
@@ -377,7 +425,7 @@ theorem C19_archive_names_distinct (a b s e s' e' : Nat) (h : a ≠ b) : archNam
 
 /-- Archives already in the directory are left alone unless an eligible log is archived under
 exactly the same name — PARTIAL: see `C19_reuse_loses_entries_fails`. -/
-theorem C19_existing_archives_kept_partial (p : Parser L) (fails : Nat → Bool) (shard bound : Nat)
+theorem C19_existing_archives_kept_partial (p : Parser L) (fails : Nat → Fault) (shard bound : Nat)
     (wal : List (WalFile L)) (fs : ArchFs) (n : Name)
     (hfresh : ∀ g ∈ wal, ∀ id, eligible bound g.name = some id → ∀ f, findFile wal (walName id) = some f →
       n ≠ (mkArchive p shard id f.lines).fileName) :
